@@ -65,12 +65,16 @@ where
   fn error(self, err: Err) {
     self.observer.error(err);
     self.status.flag.store(-1, Ordering::Relaxed);
+    #[cfg(feature = "verif_hooks")]
+    crate::verif_sync::yield_point(3);
     self.status.waker.wake();
   }
 
   fn complete(self) {
     self.observer.complete();
     self.status.flag.store(1, Ordering::Relaxed);
+    #[cfg(feature = "verif_hooks")]
+    crate::verif_sync::yield_point(2);
     self.status.waker.wake();
   }
 
@@ -113,6 +117,8 @@ impl Future for StatusFuture {
     if self.0.is_closed() {
       Poll::Ready(NormalReturn::new(()))
     } else {
+      #[cfg(feature = "verif_hooks")]
+      crate::verif_sync::yield_point(1);
       self.0.waker.register(cx.waker());
       Poll::Pending
     }
